@@ -48,6 +48,34 @@ T = [
     ("C11-a", "C11", "sub-agent", "transport reports DISPATCH_COMPLETE as soon as the loader is corrupted",
      "valid messages arriving in the same read as the bytes that expose an invalid message",
      {"C11": "C11:hs-messages-differ:*, C11:hs-unsplit-missing-messages"}, ""),
+    ("C12-a", "C12", "sub-agent", "_dbus_header_remove_unknown_fields no longer invalidates the field cache",
+     "message received from the wire; an unknown field (code > 10) placed before a known field; the known field read after stripping",
+     {"C12": "C12:accessor-differs:<field>:strip-unknown", "C03": "C03:assert:dbus-marshal-basic.c:... (the daemon strips unknown fields of every message)"}, ""),
+    ("C13-a", "C13", "sub-agent", "max_names_per_connection check skipped for DO_NOT_QUEUE requests on existing names",
+     "connection at its name limit; another connection owns X with ALLOW_REPLACEMENT; RequestName(X, DO_NOT_QUEUE|REPLACE_EXISTING)",
+     {"C13": "C13:invariant:n_services_owned-N-exceeds-max_names_per_connection (hook H1), C13:hang:*"}, ""),
+    ("C15-a", "C15", "sub-agent", "load_message takes the descriptors out of the loader only after the fallible steps",
+     "fd-carrying message + allocation failure at one of two points in load_message + the normal retry",
+     {"C14": "C14:lib:loader:double-close, C14:lib:loader:fd-identity, C14:lib:loader:messages-differ"},
+     "missed by C15 (no fault injection) and first by C14 (bus-level only): the library-level OOM part (checks/c14lib.py, harness/h_oom.c) was built, with descriptor identity, canary and fd-table checks"),
+    ("C16-a", "C16", "sub-agent", "UTF-8 validator's ASCII fast path swallows a NUL that follows an ASCII byte",
+     "length-carrying entry points only (internal predicate, message parsing); a NUL directly after an ASCII byte",
+     {"C16": "C16:utf8:accepted-but-invalid:nul", "C01": "C01:accepted-but-invalid:string-embedded-nul"},
+     "the author's notes also pointed at a pre-existing defect (mis-nested brackets a{s(ii}) accepted): generators for mis-nested signatures were added to C16/C01, which then reported it; repaired in /repo (8064dc2)"),
+    ("C17-a", "C17", "sub-agent", "dispatch looks up pending calls only for METHOD_RETURN/ERROR while the timeout is still removed for any message with a matching REPLY_SERIAL",
+     "main-loop driven completion; a signal or method call carrying REPLY_SERIAL of an outstanding call; the real reply never arrives",
+     {"C17": "see INDEX note"},
+     "first missed: the scripted peer gained non-reply messages carrying REPLY_SERIAL (see DESIGN 10.6 for the final status)"),
+    ("C18-a", "C18", "sub-agent", "BecomeMonitor releases only names the connection owns as primary; queue entries are kept",
+     "connection queued (not owner) for a name becomes a monitor; the owner later releases the name or disconnects",
+     {"C18": "C18:invariant:a-monitor-is-in-the-queue-of-name-* (hook H1), C18:hang:*"}, ""),
+    ("C19-a", "C19", "sub-agent", "try_send_activation_failure stops at the first waiter whose connection is gone",
+     ">= 2 waiters on one pending activation; a waiter that is not last disconnects while pending; the activation fails",
+     {"C19": "see INDEX note"},
+     "first missed: C19 gained waiters that disconnect while the activation is pending (see DESIGN 10.6 for the final status)"),
+    ("C20-a", "C20", "sub-agent", "a refused registration on an occupied path still overwrites the fallback flag of the existing registration",
+     "register P; refused registration of P with the opposite fallback flag; call to a path strictly below P",
+     {"C20": "C20:dispatch-order:*"}, ""),
     ("C14-a", "C14", "sub-agent", "RemoveMatch removes first and re-adds on ack failure, ignoring a failing re-add",
      "two consecutive allocation failures during RemoveMatch of a held rule",
      {"C14": "C14:state-changed-but-NoMemory:removematch"},
